@@ -3,9 +3,10 @@ SPEC = {
     "id": "C18",
     "coq_targets": ["theories/Signed/Props.vo", "theories/Signed/Findings.vo", "theories/Signed/Cases.vo"],
     "props": "theories/Signed/Props.v",
-    "harness": [{"bin": "h_signed", "n": {"quick": 400, "thorough": 12000}, "known_bits": {16: "C18-unsupported-extensions"}}],
+    "harness": [{"bin": "h_signed", "n": {"quick": 400, "thorough": 8000}, "known_bits": {16: "C18-unsupported-extensions"}}],
     "rule": "three eighths of the cases: segments of 1..5 entries with peer entries signed with real P-256 keys through the crate, then one mutation out of 16 kinds (bit flip of body/header/framing/signature/info, swap, truncation, dropped entry, appended or inserted copy, honest and forged extension, key substitution, header algorithm / length change), every entry validated by the real code; an eighth: SignedMessage::sign/validate with SHA-256/384/512, arbitrary associated-data chunks and verifier-side variations (other data, other declared length, other key, re-chunking, bit flips); one sixteenth: segment values built through add_entry (half of them with raw extension bytes) converted to RPC and back; three sixteenths: control-plane PathSegment messages and a quarter: daemon Path messages built structurally with boundary values (ids 0/65535/65536/2^32/2^64-1, MTU beyond 16 bits, missing options, MAC lengths 0/5/6/7, metadata vectors of right and wrong lengths, non-decodable parts), plus round trips of really signed segments; non-trivial = at least two entries (signing), at least one entry (segments), a value or at least one interface (paths); distinct by full case text",
     "assumptions": [
+        "AsEntry::associated_data finds the position of the entry by reference identity (std::ptr::eq on the element of as_entries): the model takes the index of the stored entry (or the number of entries for an entry that is not part of the segment) as an argument",
         "ECDSA-P256 is unforgeable and SHA-256 collision resistant: a signature verifies under a key over an input only if exactly that input was signed with that key (the correspondence check uses the ledger of honest signing events as the ideal scheme; the theorems take sig_verify/hash as Section variables)",
         "prost decode/encode, the DER signature parser, StandardPathView::try_from_slice and SocketAddr parse/print are oracles: the model receives their results on the bytes of each case",
     ],
